@@ -35,4 +35,11 @@ def toM (n : Nat) (A : Mat) : Matrix (Fin n) (Fin n) ℚ := fun i j => get A i j
 def hhWvec (sq : Rat → Rat) (k : Nat) (A : Mat) : Fin k → ℚ := fun i => get A i 0 - hhAlpha sq k A * delta i 0
 def hhNw (sq : Rat → Rat) (k : Nat) (A : Mat) : ℚ := sq (sumTo k fun i => hhW sq k A i * hhW sq k A i)
 
+/-- the diagonal matrix diag(2,1): witness of the known finding on Eigensystem/Eigenvectors -/
+def witnessM : Mat := [[2, 0], [0, 1]]
+
+/-- `ev` is an eigenvalue of the model matrix `M` (with a non-zero eigenvector of length `n`) -/
+def IsEigenvalue (n : Nat) (M : Mat) (ev : Rat) : Prop :=
+  ∃ v : List Rat, v.length = n ∧ (∃ x ∈ v, x ≠ 0) ∧ matVec n M v = v.map (ev * ·)
+
 end Lp.C15
